@@ -1,8 +1,291 @@
-/- Driver handlers for area `fedcheck` (stub: replace `handle`). -/
-import VDriver.Util
-namespace V.Driver.FedcheckOps
-open V V.Driver
+/- Driver handlers for area `fedcheck` (C14): CheckStateResponse, CheckSendJoinResponse,
+   VerifyEventAuthChain, VerifyAuthRulesAtState, LoadAndVerify, RequestBackfill over scripted oracles.
 
-def handle (_op : String) (_args : Array String) : Option String := none
+   Shared argument encodings
+     pool     ev,ev,…            each "<hex id>:<hex json>"; events are referred to by index
+     entries  -  |  tok,tok,…    tok = o<i> (parsed clean) | p<i> (too large but persistable) | x… (rejected)
+     badsig   -  |  i,i,…        pool indices whose signature check fails
+     prov     nil | - | key=kind,…   key = #<i> (ID of pool[i]) | h<hex id>;
+                                 kind = n (nothing) | e (error) | r<i>+<j>… (returns these pool events)
+                                 unlisted IDs: nothing.  A multi-ID request fails if any ID is `e`,
+                                 else returns the concatenation of the per-ID answers.
+     sprov    -  |  ent|ent…     ent = <ev i>;<IDS>;<STATE>   IDS/STATE = e | - | i,i,…  (default: empty, empty)
+     order    -  |  i,i,…        what ReverseTopologicalOrdering returned for the parsed events (given)
+-/
+import VDriver.Util
+import VDriver.Auth
+import VModel.FedCheck
+import VModel.FedCheckSpec
+import VModel.FedCheckInst
+namespace V.Driver.FedcheckOps
+open V V.Driver V.FedCheck V.Driver.AuthOps
+
+def splitList (s : String) (sep : String) : List String :=
+  if s == "-" || s == "" then [] else s.splitOn sep
+
+def natList (s : String) : List Nat := (splitList s ",").map String.toNat!
+
+structure Env where
+  pool : Array Event
+
+def Env.ev (env : Env) (i : Nat) : Event := env.pool[i]!
+
+def Env.evs (env : Env) (is : List Nat) : List Event := is.map env.ev
+
+/-- print an ID as `#<first pool index carrying it>` or `h<hex>` -/
+def Env.showID (env : Env) (id : Bytes) : String :=
+  match env.pool.toList.findIdx? (fun e => e.eventID == id) with
+  | some i => "#" ++ toString i
+  | none => "h" ++ hex id
+
+def Env.showEvs (env : Env) (es : List Event) : String :=
+  ",".intercalate (es.map (fun e => env.showID e.eventID))
+
+def parseEntries (env : Env) (s : String) : List Parsed :=
+  (splitList s ",").map (fun t =>
+    match t.toList with
+    | 'o' :: r => .ok (env.ev (String.ofList r).toNat!)
+    | 'p' :: r => .persistable (env.ev (String.ofList r).toNat!)
+    | _ => .bad)
+
+inductive Kind where
+  | nothing
+  | error
+  | ret (is : List Nat)
+
+def parseKey (env : Env) (k : String) : Bytes :=
+  match k.toList with
+  | '#' :: r => (env.ev (String.ofList r).toNat!).eventID
+  | 'h' :: r => (unhex (String.ofList r)).getD []
+  | _ => []
+
+def parseKind (k : String) : Kind :=
+  match k.toList with
+  | 'e' :: _ => .error
+  | 'r' :: r => .ret ((String.ofList r).splitOn "+" |>.map String.toNat!)
+  | _ => .nothing
+
+def parseProvTable (env : Env) (s : String) : List (Bytes × Kind) :=
+  (splitList s ",").filterMap (fun ent =>
+    match ent.splitOn "=" with
+    | [k, v] => some (parseKey env k, parseKind v)
+    | _ => none)
+
+def provOfTable (env : Env) (tbl : List (Bytes × Kind)) : EventProvider := fun ids =>
+  let kinds := ids.map (fun id => (tbl.lookup id).getD .nothing)
+  if kinds.any (fun k => match k with | .error => true | _ => false) then .error
+  else .events (kinds.flatMap (fun k => match k with
+    | .ret is => env.evs is
+    | _ => []))
+
+/-- the provider script as a table, when it abides by the contract: every `r` entry returns exactly one
+    event, which carries the requested ID.  `none` = outside the contract. -/
+def contractTable (env : Env) (tbl : List (Bytes × Kind)) : Option ((Bytes → Option Event) × (Bytes → Bool)) :=
+  let ok := tbl.all (fun kv => match kv.2 with
+    | .ret [i] => (env.ev i).eventID == kv.1
+    | .ret _ => false
+    | _ => true)
+  if !ok then none else
+  some (fun id => match tbl.lookup id with
+          | some (.ret [i]) => some (env.ev i)
+          | _ => none,
+        fun id => match tbl.lookup id with
+          | some .error => true
+          | _ => false)
+
+def parseProv (env : Env) (s : String) : Option EventProvider :=
+  if s == "nil" then none else some (provOfTable env (parseProvTable env s))
+
+def parseIdxOpt (s : String) : Option (List Nat) := if s == "e" then none else some (natList s)
+
+def parseSProv (env : Env) (s : String) : StateProvider :=
+  let ents : List (Bytes × Option (List Nat) × Option (List Nat)) := (splitList s "|").filterMap (fun ent =>
+    match ent.splitOn ";" with
+    | [i, ids, st] => some ((env.ev i.toNat!).eventID, parseIdxOpt ids, parseIdxOpt st)
+    | _ => none)
+  { ids := fun e => match ents.lookup e.eventID with
+      | none => some []
+      | some (ids, _) => ids.map (fun is => (env.evs is).map (·.eventID)),
+    state := fun e _ => match ents.lookup e.eventID with
+      | none => some []
+      | some (_, st) => st.map (fun is => (env.evs is).map (fun x => (x.eventID, x))) }
+
+def showCall (env : Env) : Call → String
+  | .events ids => "E" ++ "+".intercalate (ids.map env.showID)
+  | .stateIDs id => "I" ++ env.showID id
+  | .state id => "S" ++ env.showID id
+  | .backfill i => "B" ++ toString i
+
+def sortStrings (xs : List String) : List String := xs.mergeSort (fun a b => !(b < a))
+
+def showLog (env : Env) (log : Log) : String :=
+  "|log:" ++ ",".intercalate (sortStrings (log.map (showCall env)))
+
+def caFuel : Nat := 8
+def chainFuel : Nat := 4000
+
+/-- all auth event IDs mentioned by the events in play (where the single-ID provider contract must hold) -/
+def idsInPlay (es : List Event) : List Bytes := es.flatMap (·.authEventIDs)
+
+def showClass : LoadClass → String
+  | .ok => "ok"
+  | .parseErr => "parse"
+  | .signatureErr => "sig"
+  | .authChainErr => "chain"
+  | .authRulesErr => "rules"
+  | .empty => "empty"
+
+def showResults (env : Env) (rs : List LoadResult) : String :=
+  ",".intercalate (sortStrings (rs.map (fun r => showClass r.cls ++ (match r.event with
+    | some e => ":" ++ env.showID e.eventID
+    | none => ""))))
+
+/-- the order oracle: the list the harness observed from ReverseTopologicalOrdering for this input
+    (matched by length of the input so that the per-server lists of a backfill can differ) -/
+def orderOf (env : Env) (orders : List (List Nat)) : List Event → List Event := fun evs =>
+  match orders.find? (fun o => true && o.length ≤ evs.length && o.all (fun i => evs.any (fun e => e.eventID == (env.ev i).eventID))
+                                 && evs.all (fun e => o.any (fun i => (env.ev i).eventID == e.eventID))) with
+  | some o => env.evs o
+  | none => evs
+
+def handle (op : String) (args : Array String) : Option String :=
+  match op, args.toList with
+  | "state", [ver, pool, auth, state, badsig, prov] =>
+    match parseEvArgs (strBytes ver) (splitList pool ",") with
+    | none => some "bad-op"
+    | some es =>
+      let env : Env := { pool := es.toArray }
+      let O := authOracles ((env.evs (natList badsig)).map (·.eventID))
+      let p := parseProv env prov
+      let A := untrusted (parseEntries env auth); let S := untrusted (parseEntries env state)
+      let m := match checkStateResponse O p caFuel A S [] with
+        | (.ok a s, log) => "ok:" ++ env.showEvs a ++ "|" ++ env.showEvs s ++ showLog env log
+        | (.error, _) => "err:malformed"
+        | (.outOfFuel, _) => "diverge"
+      let sp :=
+        if !Spec.provOKOn p (idsInPlay (A ++ S)) then "unspecified:provider-contract"
+        else match Spec.stateResponse O p A S with
+          | none => "err:malformed"
+          | some (a, s) => "ok:" ++ env.showEvs a ++ "|" ++ env.showEvs s
+      -- the spec says nothing about the call log: compare the lists only
+      let mCore := (m.splitOn "|log:").headD m
+      if sp.startsWith "unspecified" then some (m ++ "\t" ++ sp)
+      else if mCore == sp then some (m ++ "\t" ++ m) else some (m ++ "\t" ++ sp)
+  | "sendjoin", [ver, pool, auth, state, badsig, prov, join] =>
+    match parseEvArgs (strBytes ver) (splitList pool ",") with
+    | none => some "bad-op"
+    | some es =>
+      let env : Env := { pool := es.toArray }
+      let O := authOracles ((env.evs (natList badsig)).map (·.eventID))
+      let p := parseProv env prov
+      let A := untrusted (parseEntries env auth); let S := untrusted (parseEntries env state)
+      let j := env.ev join.toNat!
+      let m := match checkSendJoin O p caFuel A S j [] with
+        | (.ok a s, log) => "ok:" ++ env.showEvs a ++ "|" ++ env.showEvs s ++ showLog env log
+        | (.error, _) => "err:malformed"
+        | (.notAllowedByAuth, _) => "err:join-auth"
+        | (.stateAddErr, _) => "err:state-add"
+        | (.notAllowedByState, _) => "err:join-state"
+        | (.outOfFuel, _) => "diverge"
+      let sp :=
+        if !Spec.provOKOn p (idsInPlay (j :: A ++ S)) then "unspecified:provider-contract"
+        else match Spec.sendJoin O p A S j with
+          | none => "err"
+          | some (a, s) => "ok:" ++ env.showEvs a ++ "|" ++ env.showEvs s
+      -- the spec only says accepted-with-lists / refused
+      let mCore := (m.splitOn "|log:").headD m
+      let mCoarse := if mCore.startsWith "err" then "err" else mCore
+      if sp.startsWith "unspecified" then some (m ++ "\t" ++ sp)
+      else if mCoarse == sp then some (m ++ "\t" ++ m) else some (m ++ "\t" ++ sp)
+  | "chain", [ver, pool, root, prov] =>
+    match parseEvArgs (strBytes ver) (splitList pool ",") with
+    | none => some "bad-op"
+    | some es =>
+      let env : Env := { pool := es.toArray }
+      let O := authOracles []
+      let p := provOfTable env (parseProvTable env prov)
+      let r := match verifyEventAuthChain O p caFuel chainFuel (env.ev root.toNat!) [] with
+        | (.ok, log) => "ok" ++ showLog env log
+        | (.provErr, log) => "err:provider" ++ showLog env log
+        | (.authFail, log) => "err:auth" ++ showLog env log
+        | (.outOfFuel, _) => "diverge"
+      let sp := match contractTable env (parseProvTable env prov) with
+        | none => "unspecified:provider-contract"
+        | some (table, errs) =>
+          match Spec.chainAccepts O (env.ev root.toNat!) table errs chainFuel with
+          | some true => "ok"
+          | some false => "err"
+          | none => "unspecified:fuel"
+      let rCore := (r.splitOn "|log:").headD r
+      let rCoarse := if rCore.startsWith "err" then "err" else rCore
+      if sp.startsWith "unspecified" then some (r ++ "\t" ++ sp)
+      else if rCoarse == sp then some (r ++ "\t" ++ r) else some (r ++ "\t" ++ sp)
+  | "atstate", [ver, pool, ev, allow, sprov] =>
+    match parseEvArgs (strBytes ver) (splitList pool ",") with
+    | none => some "bad-op"
+    | some es =>
+      let env : Env := { pool := es.toArray }
+      let O := authOracles []
+      let sp := parseSProv env sprov
+      let e := env.ev ev.toNat!
+      let m := match verifyAuthRulesAtState O sp e (allow == "1") [] with
+        | (.ok, log) => "ok" ++ showLog env log
+        | (.idsErr, log) => "err:ids" ++ showLog env log
+        | (.stateErr, log) => "err:state" ++ showLog env log
+        | (.notAllowed, log) => "err:auth" ++ showLog env log
+        | (.outOfFuel, _) => "diverge"
+      let s := match Spec.atState O sp e (allow == "1") with
+        | some true => "ok"
+        | some false => "err:auth"
+        | none => "err:provider"
+      let mCore := (m.splitOn "|log:").headD m
+      let mCoarse := if mCore == "err:ids" || mCore == "err:state" then "err:provider" else mCore
+      if mCoarse == s then some (m ++ "\t" ++ m) else some (m ++ "\t" ++ s)
+  | "load", [ver, pool, raws, badsig, prov, sprov, order] =>
+    match parseEvArgs (strBytes ver) (splitList pool ",") with
+    | none => some "bad-op"
+    | some es =>
+      let env : Env := { pool := es.toArray }
+      let O := authOracles ((env.evs (natList badsig)).map (·.eventID))
+      let p := provOfTable env (parseProvTable env prov)
+      let sp := parseSProv env sprov
+      let raw := parseEntries env raws
+      let ord : List Event → List Event := fun _ => env.evs (natList order)
+      if (ord []).length > (parsedClean raw).length then some "panic:load.go:index out of range" else
+      let m := match loadAndVerify O p sp caFuel chainFuel ord raw [] with
+        | none => "diverge"
+        | some (rs, log) => "ok:" ++ toString rs.length ++ ":" ++ showResults env rs ++ showLog env log
+      -- specification: one result per input; each parsed event classified by the first check it fails
+      let spec := match contractTable env (parseProvTable env prov) with
+        | none => "unspecified:provider-contract"
+        | some (table, errs) =>
+          let evs := parsedClean raw
+          let cls := evs.map (fun e => (e, Spec.loadClass O table errs sp chainFuel e))
+          if cls.any (fun c => c.2.isNone) then "unspecified:fuel"
+          else
+            let rs : List LoadResult := cls.map (fun c => { cls := c.2.getD .empty, event := some c.1 })
+              ++ List.replicate (raw.length - evs.length) { cls := .parseErr, event := none }
+            "ok:" ++ toString raw.length ++ ":" ++ showResults env rs
+      let mCore := (m.splitOn "|log:").headD m
+      if spec.startsWith "unspecified" then some (m ++ "\t" ++ spec)
+      else if mCore == spec then some (m ++ "\t" ++ m) else some (m ++ "\t" ++ spec)
+  | "backfill", [ver, pool, servers, badsig, prov, sprov, orders, limit] =>
+    match parseEvArgs (strBytes ver) (splitList pool ",") with
+    | none => some "bad-op"
+    | some es =>
+      let env : Env := { pool := es.toArray }
+      let O := authOracles ((env.evs (natList badsig)).map (·.eventID))
+      let p := provOfTable env (parseProvTable env prov)
+      let sp := parseSProv env sprov
+      let srv : List ServerAns := (splitList servers "|").map (fun s => if s == "e" then none else some (parseEntries env s))
+      let ords : List (List Nat) := (splitList orders "|").map natList
+      -- per-server order: the i-th Backfill answer that parsed is ordered by the i-th given list
+      let ord : List Event → List Event := orderOf env ords
+      match backfillLoop O p sp caFuel chainFuel ord limit.toNat! srv 0 [] [] false [] with
+      | (.done res lastErr, log) =>
+        some ("ok:" ++ ",".intercalate (sortStrings (res.map (fun e => env.showID e.eventID))) ++ (if lastErr then "|lasterr" else "") ++ showLog env log)
+      | (.panic site, _) => some ("panic:" ++ site)
+      | (.outOfFuel, _) => some "diverge"
+  | _, _ => none
 
 end V.Driver.FedcheckOps
